@@ -61,6 +61,27 @@ def _chain_job(a):
         for n in names[:upto]:
             x = getattr(x, n)
         return x
+    if a.get('refuse'):
+        # a refused write at the end of the chain (an element of another HL7 version, or of the other validation level) must
+        # raise and materialise nothing: the message looks as it did before the call (C12 on a target reached by traversal)
+        from hl7apy.core import Field, Component, SubComponent
+        cls = SubComponent if a['sub'] else Component if a['component'] else Field
+        other_v = '2.4' if a['version'] != '2.4' else '2.5'
+        for how in ('version', 'level'):
+            try:
+                bad = cls(names[-1].upper(), version=other_v) if how == 'version' else cls(names[-1].upper(), version=a['version'], validation_level=1)
+            except Exception:  # noqa
+                continue
+            try:
+                setattr(nav(len(names) - 1), names[-1], bad)
+                outcome = 'accepted'
+            except Exception as e:  # noqa
+                outcome = vlib.exc_name(e)
+            now = snapshot(m)
+            if outcome != 'accepted' and now != base:
+                return 'refused-write-changed-root how=%s raised=%s before=%r after=%r' % (how, outcome, base[:2], now[:2])
+            if outcome == 'accepted':
+                return 'ok 0'          # (the library accepted it: nothing to say about atomicity; mismatches are refused elsewhere)
     total = 0
     for rnd in range(a.get('rounds', 1)):
         value = a['value'] if rnd == 0 or a['value'] != 'X' else 'X%d' % rnd
